@@ -146,4 +146,7 @@ def run(ctx):
                                   "%s returns Pending on a path where %s had answered an error: the failure (end of stream, reset, connection "
                                   "close) is never reported and the caller waits for ever" % (b.key, pa.short(x[1])), None, p.describe())
     ctx.ok("C06-c", "no Context-receiving callee's error ends in a Pending return", "%d candidate paths" % nerr)
+    if ctx.tier == "thorough" and "h3_quinn" in prog.crates:
+        from engine import clippyx
+        clippyx.run(ctx, prog)
     ctx.assume("no single Huffman-coded string literal is >= 2^29 bytes; the QUIC transport never yields an empty chunk")
